@@ -106,13 +106,13 @@ func checkC03(c *Ctx) {
 
 	// C03.4 OnValidPropose only from the ProposeMsg handler, after Verify(&proposal)==nil
 	if onValid != nil {
-		handlers := p.registeredHandlers(namedType(p, "", "ProposeMsg"))
+		handlers := p.registeredHandlerBodies(namedType(p, "", "ProposeMsg"))
 		var hnames []string
 		var syncHandler *ssa.Function
-		for _, h := range handlers {
-			hnames = append(hnames, shortName(h))
-			if funcPkgPath(h) == modPath+"/protocol/synchronizer" {
-				syncHandler = h
+		for _, hb := range handlers {
+			hnames = append(hnames, shortName(hb.Fn))
+			if funcPkgPath(hb.Fn) == modPath+"/protocol/synchronizer" {
+				syncHandler = hb.Fn
 			}
 		}
 		refs := p.refsTo(onValid)
